@@ -18,7 +18,7 @@ def expected_stdout_from_files(tr, outfiles, model_order):
 
 
 def run(rep, model, tier, seed, broken=()):
-    n = 90 if tier == "quick" else 3000
+    n = 200 if tier == "quick" else 3000
     rng = core.rng_for(seed, "C18")
     rep.coverage["rule"] = ("generated trees and single files x output directory absolute / relative / nested inside "
                             "the input tree / parent of it / pre-populated / absent x settings affecting page content; "
